@@ -9,7 +9,7 @@ TECH = "bounded-exhaustive enumeration of {what} on the real code against {oracl
 
 CHECKS = {
     "C10": dict(
-        text="bounded-exhaustive exploration of the real escape/unescape code: every string up to length 7 (quick) / 8 (thorough) over a 13-symbol alphabet of escaping-relevant characters, every character reference of every code point in nine spellings, every &name; over the letters of the predefined names, against an independent reference un-escaper and the round-trip / no-forbidden-byte / borrowed laws",
+        text="bounded-exhaustive exploration of the real escape/unescape code: every string up to length 7 (quick) / 8 (thorough) over a 13-symbol alphabet of escaping-relevant characters, every character reference of every code point in nine spellings, every scalar value through the three escape functions (alone and next to special characters), every &name; over the letters of the predefined names, against an independent reference un-escaper and the round-trip / no-forbidden-byte / borrowed laws",
         note="small-scope hypothesis: strings longer than the bound and characters outside the alphabet are not explored; escape-html table not built",
         technique=TECH.format(what="input strings and character references", oracle="an independent reference un-escaper"),
     ),
